@@ -116,6 +116,10 @@ pub fn case(tape: &[u32]) -> CaseOutcome {
         dsl = toks[..cut].join(" ");
         dsl.push_str(*t.pick(&[" {", " let", " )", " @", ""]));
     }
+    if t.chance(1, 8) {
+        // a file that parses but breaks a static rule in a place execution never reaches
+        dsl.push_str(*t.pick(&["\n(module) @unused_capture_here {\n}\n", "\n(module) @_mm {\n  if #false {\n    print nowhere_defined\n  }\n}\n", "\n(module) @_mm {\n  let once = 1\n  if #false {\n    set once = 2\n  }\n}\n"]));
+    }
     let mut source = pysrc::gen_source(&mut t);
     if t.chance(1, 4) {
         let k = 1 + t.choose(2);
@@ -125,7 +129,7 @@ pub fn case(tape: &[u32]) -> CaseOutcome {
     let mut globals: Vec<(String, String)> = vec![];
     for (name, _, _) in g.prog.globals() {
         if t.chance(5, 6) {
-            globals.push((name.to_string(), t.pick(&["", "a", "foo/bar.py", "k=v", "a b", "é", "x=y=z", "="]).to_string()));
+            globals.push((name.to_string(), t.pick(&["", "a", "foo/bar.py", "k=v", "a b", "é", "x=y=z", "=", "a,b", ",", "x, y=z", "-v", "--json", "'q'", "\"dq\"", "a\nb", "{}", "$HOME"]).to_string()));
         }
     }
     if t.chance(1, 10) {
@@ -150,6 +154,14 @@ pub fn case(tape: &[u32]) -> CaseOutcome {
     let src_path = dir.join("x.py");
     let out_path = dir.join("out.json");
     let _ = std::fs::remove_file(&out_path);
+    // sometimes the --output file exists already and is longer than anything the run writes
+    let stale: Option<String> = if opts.output && t.chance(1, 2) { Some("stale-output-".repeat(40_000)) } else { None };
+    if let Some(text) = &stale {
+        if std::fs::write(&out_path, text).is_err() {
+            harness_error("cannot write the pre-existing output file".into());
+            return CaseOutcome::Discard("io");
+        }
+    }
     if std::fs::write(&tsg_path, &dsl).is_err() || std::fs::write(&src_path, &source).is_err() {
         harness_error("cannot write CLI input files".into());
         return CaseOutcome::Discard("io");
@@ -210,7 +222,7 @@ pub fn case(tape: &[u32]) -> CaseOutcome {
             if !stdout.trim().is_empty() {
                 return CaseOutcome::Fail(Failure::new("C19:output-on-failure", format!("the CLI fails ({}) but prints to stdout", why), d(json!({}))));
             }
-            if file_text.is_some() {
+            if file_text != stale {
                 return CaseOutcome::Fail(Failure::new("C19:output-file-on-failure", format!("the CLI fails ({}) but writes the --output file", why), d(json!({}))));
             }
             labels.push(format!("fail:{}", why));
@@ -235,6 +247,7 @@ pub fn case(tape: &[u32]) -> CaseOutcome {
                     if file_text.is_some() {
                         return CaseOutcome::Fail(Failure::new("C19:unexpected-output-file", "an output file appeared without --output".to_string(), d(json!({}))));
                     }
+                    let _ = &stale;
                     stdout.clone()
                 };
                 let mut got: serde_json::Value = match serde_json::from_str(&text) {
